@@ -12,7 +12,7 @@ from sa.engine.guards import path_conditions
 from sa.engine.loader import anorm, AnalysisError, dotted, norm, short, walk_own
 from sa.engine.mustcall import MustPass
 from sa.engine.report import Finding, RuleReport
-from sa.rules.common import X, exception_family, extractor_entries, raised_class
+from sa.rules.common import constants_of, X, exception_family, extractor_entries, raised_class
 
 ENC = X + "util/encryption.py"
 ARCH = X + "archive_extractor.py"
@@ -420,19 +420,24 @@ def _encryption_only_classes(ctx, names):
     return sites
 
 
-def _pos_exits(body, guards):
-    """(return True statement, enclosing if-tests) for every positive exit of a detector."""
+def _pos_exits(body, guards, flags=None):
+    """(statement, enclosing if-tests) for every positive exit of a detector: `return True`, or `flag = True` for a flag the detector
+    returns (`encrypted = True; break ... return encrypted` is the same exit spelled with a flag)."""
+    if flags is None:
+        flags = {r.value.id for st in body for r in ast.walk(st) if isinstance(r, ast.Return) and isinstance(r.value, ast.Name)}
     for st in body:
         if isinstance(st, ast.Return) and isinstance(st.value, ast.Constant) and st.value.value is True:
             yield st, guards
+        elif isinstance(st, ast.Assign) and len(st.targets) == 1 and isinstance(st.targets[0], ast.Name) and st.targets[0].id in flags and isinstance(st.value, ast.Constant) and st.value.value is True:
+            yield st, guards
         elif isinstance(st, ast.If):
-            yield from _pos_exits(st.body, guards + [st.test])
-            yield from _pos_exits(st.orelse, guards)
+            yield from _pos_exits(st.body, guards + [st.test], flags)
+            yield from _pos_exits(st.orelse, guards, flags)
         elif isinstance(st, (ast.For, ast.While, ast.With, ast.Try)):
             for fld in ("body", "orelse", "finalbody"):
-                yield from _pos_exits(getattr(st, fld, []), guards)
+                yield from _pos_exits(getattr(st, fld, []), guards, flags)
             for h in getattr(st, "handlers", []):
-                yield from _pos_exits(h.body, guards)
+                yield from _pos_exits(h.body, guards, flags)
 
 
 FONT_OBFUSCATION = {"http://www.idpf.org/2008/embedding", "http://ns.adobe.com/pdf/enc#RC"}  # EPUB OCF 3 §4.4 / Adobe font mangling: listed in encryption.xml, not DRM
@@ -551,18 +556,19 @@ def rule_const(ctx: Ctx) -> RuleReport:
                     ids.append(vv if isinstance(vv, int) else tuple(vv) if isinstance(vv, (tuple, list, set, frozenset)) else UNKNOWN)
         chk(ids == [0x002F], "BIFF FILEPASS 0x002F", ENC, x.qual, "positive exit under record id " + ",".join(hex(i) if isinstance(i, int) else str(i) for i in ids),
             "is_xls_encrypted answers True under a record test other than `record id == 0x002F` (FILEPASS): " + " and ".join(short(g, 50) for g in guards) + " — FILEPASS is the only BIFF record that means the stream is encrypted (PASSWORD 0x0013, WRITEPROT 0x0086, PROTECT 0x0012 are sheet/workbook protection of unencrypted files)")
-    streams = {n.value for n in walk_own(x.node) if isinstance(n, ast.Constant) and isinstance(n.value, str) and n.value in ("Workbook", "Book")}
+    streams = {v for v in constants_of(ctx, x) if v in ("Workbook", "Book")}
     chk(streams == {"Workbook", "Book"}, "XLS streams Workbook/Book", ENC, x.qual, ",".join(sorted(streams)), "is_xls_encrypted must scan the Workbook (BIFF8) or Book (BIFF5) stream")
     h = ctx.p.func(ENC, "_has_ole_encryption_stream")
     names = set()
     for n in walk_own(h.node):
-        if isinstance(n, ast.For):
-            vv = ctx.folder.fold(h.module, n.iter)
+        iters = [n.iter] if isinstance(n, ast.For) else [g.iter for g in n.generators] if isinstance(n, (ast.GeneratorExp, ast.ListComp, ast.SetComp)) else []
+        for it in iters:
+            vv = ctx.folder.fold(h.module, it)
             if isinstance(vv, (tuple, list, set, frozenset)):
                 names |= set(vv)
     chk(names == {"EncryptionInfo", "EncryptedPackage", "DataSpaces"}, "OLE encryption stream names", ENC, h.qual, ",".join(sorted(map(str, names))), "OOXML encryption is recognised by the streams EncryptionInfo / EncryptedPackage / DataSpaces")
     pp = ctx.p.func(ENC, "is_ppt_encrypted")
-    consts = {n.value for n in walk_own(pp.node) if isinstance(n, ast.Constant) and isinstance(n.value, str)}
+    consts = constants_of(ctx, pp)
     chk({"EncryptedSummary", "EncryptedSummaryInformation"} <= consts and any(g.qual == "_has_ole_encryption_stream" for c in calls_in(pp) for g in resolve_call(ctx.p, pp, c).funcs),
         "PPT encrypted summary streams", ENC, pp.qual, ",".join(sorted(consts)), "is_ppt_encrypted must test the OLE encryption streams and EncryptedSummary*")
     # [MS-PPT] 2.3.2 CurrentUserAtom.headerToken: 0xF3D1C4DF = encrypted document (bytes 12..16 of the Current User stream, little-endian)
@@ -571,12 +577,12 @@ def rule_const(ctx: Ctx) -> RuleReport:
     chk(bool(tok) and bool(sl) and "Current User" in consts, "PPT Current User headerToken 0xF3D1C4DF at [12:16]", ENC, pp.qual, "Current User token " + ("present" if tok else "missing"),
         "is_ppt_encrypted must also test CurrentUserAtom.headerToken == 0xF3D1C4DF (bytes 12..16 of the 'Current User' stream): an encrypted presentation saved without encrypted document properties has no EncryptedSummary stream")
     od = ctx.p.func(ENC, "is_odf_encrypted")
-    consts = {n.value for n in walk_own(od.node) if isinstance(n, ast.Constant) and isinstance(n.value, str)}
+    consts = constants_of(ctx, od)
     chk("META-INF/manifest.xml" in consts and "encryption-data" in consts, "ODF manifest encryption-data", ENC, od.qual, ",".join(sorted(consts))[:80], "is_odf_encrypted must look for encryption-data in META-INF/manifest.xml")
     v = ctx.const(SZ, "CODER_AES_PREFIX")
     chk(isinstance(v, bytes) and len(v) >= 3 and bytes.fromhex("06f10701").startswith(v), "7z AES coder family 06F107xx", SZ, "CODER_AES_PREFIX", repr(v), "the 7z AES coder id is 06F10701")
     ep = ctx.p.func(EPUB, "_is_epub_encrypted")
-    consts = {n.value for n in walk_own(ep.node) if isinstance(n, ast.Constant) and isinstance(n.value, str)}
+    consts = constants_of(ctx, ep)
     chk("META-INF/encryption.xml" in consts and "META-INF/rights.xml" in consts and any("xmlenc#}EncryptedData" in c for c in consts), "EPUB encryption.xml EncryptedData / rights.xml", EPUB, ep.qual,
         ",".join(sorted(consts))[:100], "EPUB DRM is recognised by EncryptedData in META-INF/encryption.xml or META-INF/rights.xml")
     _epub_quantifier(ctx, rep, ep)
